@@ -11,6 +11,7 @@
 #include <list>
 #include <set>
 #include <unordered_set>
+#include <memory>
 #include <boost/graph/adjacency_list.hpp>
 #include <boost/property_map/property_map.hpp>
 #include <parmcb/parmcb.hpp>
@@ -94,6 +95,40 @@ void do_fvs(Ctx<W> &x) {
     std::cout << "fvs"; for (auto v : out) std::cout << " " << v; std::cout << "\n";
 }
 
+#ifdef PARMCB_SHIM
+// schedule control of the TBB stand-in: reseed before a run, report afterwards
+static void shim_begin(const CaseIn &c, std::size_t argpos) {
+    std::uint64_t seed = c.args.size() > argpos ? std::stoull(c.args[argpos]) : 1;
+    int mode = c.args.size() > argpos + 1 ? std::stoi(c.args[argpos + 1]) : 0;
+    tbbshim::reseed(seed, mode);
+}
+static void shim_end(bool first_for_is_init) {
+    auto &ct = tbbshim::ctl();
+    if (first_for_is_init) {
+        // the first parallel_for of mcb_sva_signed_tbb fills the support vector: report the push_back order
+        for (auto &l : ct.log) if (l.compare(0, 3, "for") == 0) {
+            std::cout << "init";
+            std::istringstream is(l.substr(3)); std::string tok;
+            while (is >> tok) { auto p = tok.find(':'); std::size_t a = std::stoul(tok.substr(0, p)), b = std::stoul(tok.substr(p + 1)); for (std::size_t i = a; i < b; i++) std::cout << " " << i; }
+            std::cout << "\n"; break;
+        }
+    }
+    std::cout << "shim " << ct.regions << " " << ct.leaves << " " << ct.forks << " " << ct.seqs << "\n";
+    for (std::size_t i = 0; i < ct.log.size() && i < 3; i++) std::cout << "# " << ct.log[i].substr(0, 200) << "\n";
+}
+#else
+// real oneTBB: the extra case argument is the number of threads to allow
+static void shim_begin(const CaseIn &c, std::size_t argpos) {
+    static std::unique_ptr<tbb::global_control> gc;
+    gc.reset();
+    if (c.args.size() > argpos) {
+        std::size_t t = std::stoul(c.args[argpos]);
+        if (t > 0) gc.reset(new tbb::global_control(tbb::global_control::max_allowed_parallelism, t));
+    }
+}
+static void shim_end(bool) {}
+#endif
+
 template<class W>
 void do_exact(Ctx<W> &x, const std::string &variant) {
     typedef typename Ctx<W>::Edge Edge;
@@ -110,6 +145,7 @@ void do_exact(Ctx<W> &x, const std::string &variant) {
     else if (variant == "fvs_tbb") ret = parmcb::mcb_sva_fvs_trees_tbb(x.g, wm, std::back_inserter(cycles));
     else if (variant == "iso_tbb") ret = parmcb::mcb_sva_iso_trees_tbb(x.g, wm, std::back_inserter(cycles));
     else { std::cout << "error unknown-variant\n"; return; }
+    shim_end(variant == "signed_tbb");
     for (auto &c : cycles) x.print_cycle("cycle", c);
     std::cout << "ret " << x.scaled(ret) << " " << (x.exact(ret) ? 1 : 0) << "\n";
 }
@@ -220,9 +256,13 @@ void do_approx(Ctx<W> &x, const std::string &variant, std::size_t k) {
     }
     std::cout << "foreign " << foreign << "\n";
     std::cout << "truew " << truew << "\n";
+    shim_end(variant == "signed_tbb");
     if (threw) std::cout << "throw " << cycles.size() << "\n";
     else std::cout << "ret " << x.scaled(ret) << " " << (x.exact(ret) ? 1 : 0) << "\n";
 }
+
+template<class W>
+void do_approx_dispatch(Ctx<W> &x, const CaseIn &c) { do_approx(x, c.args.at(2), std::stoul(c.args.at(3))); }
 
 template<class W>
 void run_case(const CaseIn &c) {
@@ -231,11 +271,12 @@ void run_case(const CaseIn &c) {
     x.echo(c);
     if (c.kind == "forest") do_forest(x);
     else if (c.kind == "fvs") do_fvs(x);
-    else if (c.kind == "exact") do_exact(x, c.args.at(2));
+    else if (c.kind == "exact") { shim_begin(c, 3); do_exact(x, c.args.at(2)); }
     else if (c.kind == "trees") do_trees(x);
     else if (c.kind == "cands") do_cands(x, c.args.at(2));
     else if (c.kind == "spanner") do_spanner(x, std::stoul(c.args.at(2)));
-    else if (c.kind == "approx") do_approx(x, c.args.at(2), std::stoul(c.args.at(3)));
+    else if (c.kind == "approx") { shim_begin(c, 4); do_approx_dispatch(x, c); }
+    else if (c.kind == "approx_old") do_approx(x, c.args.at(2), std::stoul(c.args.at(3)));
     std::cout << "end\n";
 }
 
